@@ -128,13 +128,13 @@ REG["C04"] = {
     "quick_extra": ["replay"],
     "units": ["escaping"],
     "scope": "equal: matches iff line == expr + LF; no-eol: iff line == expr; escaped: matches iff stored bytes == line without trailing LFs, and the stored bytes are "
-             "decode(expr) = resolve(unesc(expr)) (both decoders verified against recursive specs); regex: the pattern handed to the regex crate is ^(?:cleaned)$ and the candidate is "
+             "decode(expr) = resolve(unesc(expr)) (both decoders verified against recursive specs); regex: a regular expression is taken AS WRITTEN (only an expression the regex crate rejects goes through the three clean-ups), what is anchored is an expression of its own, the pattern handed to the regex crate is ^(?:cleaned)$ and the candidate is "
              "the line without trailing LFs; glob (wildmatch) and Cram glob: candidate is lossy/bytes of the line without trailing LFs. Cram glob translation table (glob_to_regex_string, loop invariant against the recursive spec g2r): the compiled pattern is `^` + per-token translation + `$` with `?` -> `.`, `*` -> `.*`, `\\*` `\\?` `\\\\` kept as escaped literals and every other character handed to regex::escape one at a time; glob_to_regex compiles exactly that text; CramGlobRule::make translates the expression itself or, when marked ` (escaped)`, its decoded text. newline helpers trim_newlines/assure_newline/ends_in_newline verified. "
              "EscapedRule::make stores decode(expression minus a trailing ` (no-eol)`); GlobRule::make hands wildmatch the expression itself or, when it carries an ` (escaped)`/` (esc)` marker "
              "(expression_as_escaped == as_escaped, all str slices proved to be on char boundaries), its decoded text (apply_escaped_filter_utf8).",
     "assumptions": ESC_TRUST + [
         "the matching semantics of the regex and wildmatch crates (uninterpreted regex_lang / wild_lang): `?` = one char, `*` = any run, and L(^(?:e)$) = whole-string L(e) are NOT proved",
-        "the three best-effort regex clean-ups are uninterpreted (their effect on L(e) is not specified by the property)",
+        "the three best-effort regex clean-ups are uninterpreted (since fix 0aef8b2 they only see expressions that are NOT regular expressions; their effect is not specified by the property)", "regex_valid(e) = the regex crate compiles e (uninterpreted); cross-checked bounded: verif-replay regexkind compares the rule scrut builds for 45 valid expressions (quantifiers, classes incl. POSIX and nested, braced escapes, word boundaries, literal text) with the regex crate's own whole-line answer on a pool of 44 lines",
     ],
     "not_decided": ["the wildmatch / regex matching semantics (incl. that `.` is one CHARACTER, not one byte, and what regex::escape returns): BOUNDED cross-check only — verif-replay glob N runs every glob of up to N "
                     "characters over {a, é, ?, *} against every line of up to 3 characters over {a, b, é, 😀}, with and without final newline, through GlobRule and CramGlobRule and compares with the "
